@@ -239,6 +239,20 @@ impl<'a> CompilerState<'a> {
         v
     }
 
+    // Insertion rank of a variable / function: a name that is declared again keeps its rank,
+    // so that ranks stay unique and the sorted tables do not depend on hash iteration order
+    fn variable_order(&self, name: &str) -> usize {
+        self.variables
+            .get(name)
+            .map_or(self.variables.len(), |v| v.order)
+    }
+
+    fn function_order(&self, name: &str) -> usize {
+        self.functions
+            .get(name)
+            .map_or(self.functions.len(), |f| f.order)
+    }
+
     pub fn syntax_error(&self, message: &str, loc: usize) -> Error {
         let mut line_number: usize = 0;
         let mut char_number = 0;
@@ -378,7 +392,10 @@ impl<'a> CompilerState<'a> {
 
         // Create collected literal variables in memory
         self.literal_counter += res.1.len();
-        for k in &res.1 {
+        // Drain the literals in a fixed order (the map's iteration order is arbitrary)
+        let mut literals: Vec<(&String, &String)> = res.1.iter().collect();
+        literals.sort();
+        for k in literals {
             let vb = k.1.as_bytes();
             let mut v = Vec::<VariableValue>::new();
             for c in vb.iter() {
@@ -388,7 +405,7 @@ impl<'a> CompilerState<'a> {
             self.variables.insert(
                 k.0.clone(),
                 Variable {
-                    order: self.variables.len(),
+                    order: self.variable_order(k.0),
                     signed: false,
                     memory: VariableMemory::ROM(0),
                     var_const: true,
@@ -543,7 +560,10 @@ impl<'a> CompilerState<'a> {
 
         // Create collected literal variables in memory
         self.literal_counter += res.1.len();
-        for k in &res.1 {
+        // Drain the literals in a fixed order (the map's iteration order is arbitrary)
+        let mut literals: Vec<(&String, &String)> = res.1.iter().collect();
+        literals.sort();
+        for k in literals {
             let vb = k.1.as_bytes();
             let mut v = Vec::<VariableValue>::new();
             for c in vb.iter() {
@@ -553,7 +573,7 @@ impl<'a> CompilerState<'a> {
             self.variables.insert(
                 k.0.clone(),
                 Variable {
-                    order: self.variables.len(),
+                    order: self.variable_order(k.0),
                     signed: false,
                     memory: VariableMemory::ROM(0),
                     var_const: true,
@@ -1567,7 +1587,7 @@ impl<'a> CompilerState<'a> {
                                                         self.variables.insert(
                                                             name.clone(),
                                                             Variable {
-                                                                order: self.variables.len(),
+                                                                order: self.variable_order(&name),
                                                                 signed: false,
                                                                 memory,
                                                                 var_const: true,
@@ -1681,7 +1701,7 @@ impl<'a> CompilerState<'a> {
                         self.variables.insert(
                             name.to_string(),
                             Variable {
-                                order: self.variables.len(),
+                                order: self.variable_order(&name),
                                 signed,
                                 memory,
                                 var_const,
@@ -1849,10 +1869,11 @@ impl<'a> CompilerState<'a> {
                                 let vars = self.in_scope_variables.last_mut().unwrap();
                                 vars.insert(shortname.into(), name.clone());
                                 // Insert it into the global table
+                                let order = self.variable_order(&name);
                                 self.variables.insert(
                                     name,
                                     Variable {
-                                        order: self.variables.len(),
+                                        order,
                                         signed,
                                         memory,
                                         var_const,
@@ -1986,7 +2007,7 @@ impl<'a> CompilerState<'a> {
                     self.functions.insert(
                         name.clone(),
                         Function {
-                            order: self.functions.len(),
+                            order: self.function_order(&name),
                             inline,
                             bank,
                             code: None,
@@ -2002,7 +2023,7 @@ impl<'a> CompilerState<'a> {
                         self.variables.insert(
                             name.to_string(),
                             Variable {
-                                order: self.variables.len(),
+                                order: self.variable_order(&name),
                                 signed: false,
                                 memory: VariableMemory::Dummy,
                                 var_const: true,
@@ -2133,7 +2154,7 @@ impl<'a> CompilerState<'a> {
                         }
                         // Insert it into the global table
                         let var = Variable {
-                            order: self.variables.len(),
+                            order: self.variable_order(&longname),
                             signed,
                             memory,
                             var_const,
@@ -2160,7 +2181,7 @@ impl<'a> CompilerState<'a> {
             self.functions.insert(
                 name.clone(),
                 Function {
-                    order: self.functions.len(),
+                    order: self.function_order(&name),
                     inline,
                     bank,
                     code: None,
